@@ -204,6 +204,10 @@ class H2Protocol:
             stream_ids = list(self.streams.keys())
             for stream_id in stream_ids:
                 await self._close_stream(stream_id)
+            # Nothing more will be sent, release any sender waiting
+            # on flow control
+            for stream_buffer in self.stream_buffers.values():
+                await stream_buffer.close()
             await self.has_data.set()
 
     async def stream_send(self, event: StreamEvent) -> None:
